@@ -126,7 +126,7 @@ def gen_plan(rng, n, epoch=False, doctored=False):
              'sensitive': rng.choice([None, None, True, False]),
              'mask': sorted(m.name for m in rng.sample(MASKS[:10], rng.choice([0, 1, 2, 2, 3]))),
              'state': rng.choice(['PRE_ACTIVE'] * 3 + ['ACTIVE', 'ACTIVE', 'DEACTIVATED', 'COMPROMISED']),
-             'advance': rng.choice([0, 0, 0, 1, 1, 7])}
+             'advance': rng.choice([0, 0, 0, 1, 1, 7, 2, -3])}
         if t == 'SYMMETRIC_KEY':
             o['how'] = rng.choice(['create', 'register'])
             o['alg'], o['len'] = rng.choice([('AES', 128), ('AES', 256), ('AES', 192), ('TRIPLE_DES', 192)])
